@@ -127,6 +127,7 @@ type Exec struct {
 	specs      map[string]*specInfo
 	conSig     *types.Signature
 	globalInit map[string]bool
+	rootCon    *Contract
 }
 
 type inlineFrame struct {
